@@ -379,3 +379,80 @@ func extremumRule(c *core.Check, r *core.Rule, pkg string, floor int) {
 		r.Unknown("running extremum updates in "+pkg, "-", fmt.Sprintf("%d found, %d on the tree this rule was written for", len(ups), floor))
 	}
 }
+
+// counterCellRule: the running quote depth (quoteDepth[0], shared by the whole box-building pass and used as an index
+// into the quotes list) never becomes negative: every value stored into the cell is clamped at 0, is the cell plus a
+// positive constant, or is the cell minus one under a test that the cell is at least one.
+func counterCellRule(c *core.Check, r *core.Rule) {
+	p := c.Prog
+	n := 0
+	for _, fn := range p.FuncsOfPkg("html/boxes") {
+		fn := fn
+		isCell := func(addr ssa.Value) bool {
+			ia, ok := addr.(*ssa.IndexAddr)
+			if !ok {
+				return false
+			}
+			base := core.ResolveLoad(ia.X)
+			par, ok := base.(*ssa.Parameter)
+			if !ok {
+				if fv, isFV := base.(*ssa.FreeVar); !isFV || fv.Name() != "quoteDepth" {
+					return false
+				}
+			} else if par.Name() != "quoteDepth" {
+				return false
+			}
+			k, isK := core.ConstInt(ia.Index)
+			return isK && k == 0
+		}
+		loadOfCell := func(v ssa.Value) bool {
+			ld, ok := v.(*ssa.UnOp)
+			return ok && ld.Op == token.MUL && isCell(ld.X)
+		}
+		core.Instrs(fn, func(in ssa.Instruction) {
+			st, ok := in.(*ssa.Store)
+			if !ok || !isCell(st.Addr) {
+				return
+			}
+			n++
+			key := core.FuncName(fn) + " | quoteDepth[0] = " + exprName(st.Val)
+			okv, why := false, "the stored value is not clamped at 0"
+			switch x := st.Val.(type) {
+			case *ssa.Const:
+				if k, isK := core.ConstInt(x); isK && k >= 0 {
+					okv, why = true, "non-negative constant"
+				}
+			case *ssa.Call:
+				name := ""
+				if cal := x.Call.StaticCallee(); cal != nil {
+					name = strings.ToLower(cal.Name())
+				} else if b, isB := x.Call.Value.(*ssa.Builtin); isB {
+					name = b.Name()
+				}
+				if name == "maxint" || name == "max" {
+					for _, a := range x.Call.Args {
+						if k, isK := core.ConstInt(a); isK && k >= 0 {
+							okv, why = true, "clamped by "+name+" with "+fmt.Sprint(k)
+						}
+					}
+				}
+			case *ssa.BinOp:
+				k, isK := core.ConstInt(x.Y)
+				switch {
+				case x.Op == token.ADD && isK && k > 0 && loadOfCell(x.X):
+					okv, why = true, "the cell plus a positive constant"
+				case x.Op == token.SUB && isK && k > 0 && loadOfCell(x.X):
+					if ok2, how := core.ProveAtLeast(fn, x.X, k, st.Block()); ok2 {
+						okv, why = true, "the cell minus "+fmt.Sprint(k)+" under a test: "+how
+					} else {
+						why = "the cell is decremented without a test that it is at least " + fmt.Sprint(k) + " (a closing quote without an opening one makes the depth negative, and the depth indexes the quotes list)"
+					}
+				}
+			}
+			r.Cond(okv, key, p.Pos(st.Pos()), why, why)
+		})
+	}
+	if n == 0 {
+		r.Anchor("stores into quoteDepth[0] in html/boxes")
+	}
+}
